@@ -302,6 +302,44 @@ theorem nested_sub_err_of_climbs (s : List Str) (rest : List (List Str)) (p : St
   simp only [List.map_cons, nestedDelegate]
   rw [(sub_delegate_err_iff s p .IllegalBackReference hs).2 ⟨rfl, hcl⟩, bind_err]
 
+/-! ### `SubFS.delegate_path` as coded (invalid characters refused first) -/
+
+/-- whatever the coded chain hands to the parent, the unchecked chain hands over too: every
+confinement theorem above therefore holds for the code as written -/
+theorem nestedChk_ok_imp (inv : List Char) (subs : List Str) (p q : Str)
+    (h : nestedDelegateChk inv subs p = .ok q) : nestedDelegate subs p = .ok q := by
+  induction subs generalizing p with
+  | nil => simpa only [nestedDelegateChk, nestedDelegate] using h
+  | cons s rest ih =>
+    simp only [nestedDelegateChk, subDelegateChk] at h
+    simp only [nestedDelegate]
+    by_cases hb : p.any (fun c => inv.contains c) = true
+    · rw [if_pos hb, bind_err] at h; cases h
+    · rw [if_neg hb] at h
+      cases h1 : subDelegate s p with
+      | err e => rw [h1, bind_err] at h; cases h
+      | ok r => rw [h1, bind_ok] at h; rw [bind_ok]; exact ih r h
+
+/-- the coded chain stays beneath the sub-directories at every nesting depth -/
+theorem nested_sub_chk_under (inv : List Char) (s : List Str) (rest : List (List Str)) (p q : Str)
+    (hs : ∀ x ∈ s :: rest, Clean x)
+    (h : nestedDelegateChk inv ((s :: rest).map absOf) p = .ok q) :
+    (s :: rest).reverse.flatten <+: comps q ∧ Clean (comps q) :=
+  nested_sub_under s rest p q hs (nestedChk_ok_imp inv _ p q h)
+
+/-- a path carrying one of the parent's invalid characters never reaches the parent, even when
+`normpath` would have removed the character (`"x\0/.."`) -/
+theorem nested_sub_chk_invalid (inv : List Char) (s : Str) (rest : List Str) (p : Str) (c : Char)
+    (hc : c ∈ p) (hi : c ∈ inv) :
+    nestedDelegateChk inv (s :: rest) p = .err .InvalidCharsInPath := by
+  have : p.any (fun c => inv.contains c) = true := by
+    rw [List.any_eq_true]; exact ⟨c, hc, by simpa using hi⟩
+  simp only [nestedDelegateChk, subDelegateChk]
+  rw [if_pos this, bind_err]
+
+example : nestedDelegateChk ['\x00'] ["/sub".toList] "x\x00/..".toList = .err .InvalidCharsInPath := by decide
+example : nestedDelegateChk ['\x00'] ["/c".toList, "/a/b".toList] "./f".toList = .ok "/a/b/c/f".toList := by decide
+
 /-! ## MountFS -/
 
 /-- a stored mount path: `forcedir(abspath(normpath(path)))` -/
